@@ -282,12 +282,12 @@ func ruleR10(c *Ctx) {
 						c.r.ok("R10", key, c.m.pos(y.Pos()), fmt.Sprintf("index range [%d,%d] fits array of length %d", r[0]+off, r[1]+off, arr.Len()), props...)
 						// a table indexed by a byte value (256 entries) is enumerated completely: a loop
 						// that stops at 254 or starts at 1 silently skips one branch byte
-						if off == 0 && arr.Len() == 256 {
+						if off == 0 && arr.Len() >= 16 {
 							k2 := fmt.Sprintf("%s enumerates all of %s", u.Name, display((&canonCtx{info: info}).canon(y.X)))
-							if r[0] == 0 && r[1] == 255 {
-								c.r.ok("R10", k2, c.m.pos(y.Pos()), "induction range [0,255] covers the 256 byte values", props...)
+							if r[0] == 0 && r[1] == arr.Len()-1 {
+								c.r.ok("R10", k2, c.m.pos(y.Pos()), fmt.Sprintf("induction range [0,%d] covers the array", r[1]), props...)
 							} else {
-								c.r.bad("R10", k2, c.m.pos(y.Pos()), fmt.Sprintf("the loop visits entries [%d,%d] of a table with one entry per byte value: the children under the other byte values are never seen", r[0], r[1]), props...)
+								c.r.bad("R10", k2, c.m.pos(y.Pos()), fmt.Sprintf("the loop visits entries [%d,%d] of an array of %d (one entry per byte value or lane): the children or lanes at the other positions are never seen", r[0], r[1], arr.Len()), props...)
 							}
 						}
 					} else {
